@@ -787,8 +787,207 @@ def corr_op_names(ctx, corr):
                                            what="operator %s: %s" % (' '.join(toks), msg)))
 
 
+# ---------------------------------------------------------------------------
+# what follows the closing brace of a class / enum definition: extracted finish_class (Parse/FinishClass.v) vs the real
+# _finish_class_or_enum on the same token lists with a recording visitor
+
+class _FinRec(impl.NullVisitor):
+    def __init__(self):
+        self.order = []
+
+    def on_variable(self, state, v):
+        self.order.append(('var', v))
+
+    def on_function(self, state, f):
+        self.order.append(('fn', f))
+
+    def on_typedef(self, state, t):
+        self.order.append(('typedef', t))
+
+    def on_class_field(self, state, f):
+        self.order.append(('field', f))
+
+    def on_class_method(self, state, m):
+        self.order.append(('method', m))
+
+
+FIN_MODS = [(), (), ('static',), ('constexpr',), ('inline',), ('extern',), ('mutable',), ('static', 'inline')]
+
+
+def real_finish(strs, in_class, td, anon, key, mods, c, v):
+    from cxxheaderparser import parserstate as PS
+    from harness import decl
+    toks = [impl.mk_tok(decl.tok_type(x), x) for x in strs]
+    p = impl.parser_over(toks)
+    rec = _FinRec()
+    p.visitor = rec
+    if in_class:
+        cd = T.ClassDecl(T.PQName([T.NameSpecifier('Outer')], classkey='struct'))
+        p.state = PS.ClassBlockState(p.state, impl.L.Location("<list>", 1), cd, 'public', False, PS.ParsedTypeModifiers({}, {}, {}))
+    name = T.PQName([T.AnonymousName(7) if anon else T.NameSpecifier('Cn')], classkey=key)
+    both = {k: impl.mk_tok(k, k) for k in mods if k in ('constexpr', 'extern', 'inline', 'static')}
+    vars_ = {k: impl.mk_tok(k, k) for k in mods if k == 'mutable'}
+    pm = PS.ParsedTypeModifiers(vars_, both, {})
+    try:
+        p._finish_class_or_enum(name, td, pm, key, impl.L.Location("<list>", 1), c, v)
+    except (impl.CxxParseError, EOFError):
+        return ('err',)
+    except (AssertionError, IndexError, KeyError, AttributeError, TypeError, RecursionError):
+        return ('err',)          # (constructing a dataclass with a flag it does not have: parse() reports these as parse errors)
+    name.segments[-1] = T.NameSpecifier('Cn')       # every declarator is built on this one name object
+    name.classkey = None
+    val = lambda x: None if x is None else tuple(t.value for t in x.tokens)
+    out = []
+    try:
+        for kind, o in rec.order:
+            if kind == 'var':
+                if o.template or len(o.name.segments) != 1:
+                    return ('other',)
+                out.append(('var', o.name.segments[0].name, decl.from_real(o.type), val(o.value), (o.constexpr, o.extern, o.inline, o.static)))
+            elif kind == 'typedef':
+                if isinstance(o.type, T.FunctionType):
+                    ft = o.type
+                    ps = tuple((decl.from_real(q.type), q.name) for q in ft.parameters)
+                    if ft.has_trailing_return or ft.msvc_convention or any(q.default is not None or q.param_pack for q in ft.parameters):
+                        return ('other',)
+                    out.append(('tdfn', o.name, ('F', decl.from_real(ft.return_type), ps, ft.vararg)))
+                else:
+                    out.append(('td', o.name, decl.from_real(o.type)))
+            elif kind == 'field':
+                out.append(('field', o.name, decl.from_real(o.type), o.bits, val(o.value), (o.constexpr, o.mutable, o.static, o.inline)))
+            else:
+                if (o.has_trailing_return or o.msvc_convention or o.operator or o.raw_requires or o.template or len(o.name.segments) != 1
+                        or any(q.default is not None or q.param_pack for q in o.parameters)):
+                    return ('other',)
+                ps = tuple((decl.from_real(q.type), q.name) for q in o.parameters)
+                rt = None if o.return_type is None else decl.from_real(o.return_type)
+                if kind == 'fn':
+                    out.append(('fn', o.name.segments[0].name, ('F', rt, ps, o.vararg), val(o.throw), val(o.noexcept), o.has_body, o.deleted,
+                                (o.constexpr, o.extern, o.inline, o.static)))
+                else:
+                    out.append(('method', o.name.segments[0].name, o.constructor, o.destructor, rt, ps, o.vararg,
+                                (o.const, o.volatile, o.override, o.final, {None: 0, '&': 1, '&&': 2}[o.ref_qualifier], val(o.throw), val(o.noexcept),
+                                 o.pure_virtual, o.deleted, o.default, o.has_body), (o.constexpr, o.extern, o.inline, o.static, o.explicit, o.virtual)))
+    except decl.Unrepresentable:
+        return ('other',)
+    return ('ok', out, len(p.lex.tokbuf))
+
+
+def corr_finish(ctx, corr):
+    from harness import decl
+    from harness.props import c01, c02
+    rng = ctx.rng
+    cases = []
+    for _ in range(ctx.scale(1000, 20000)):
+        in_class = rng.random() < 0.4
+        td = (not in_class) and rng.random() < 0.3
+        anon = rng.random() < 0.5
+        key = rng.choice(['struct', 'union', 'class', 'enum'])
+        mods = () if td else rng.choice(FIN_MODS)
+        c, v = rng.random() < 0.25, rng.random() < 0.1
+        r = rng.random()
+        if r < 0.15:
+            toks, n = [';'], 1
+        elif in_class:
+            toks, n = gen_member_stmt(rng, 'Outer')
+            while toks and toks[0] in MS_SPECS or toks[0] in ('Outer', '~Outer'):
+                toks, n = gen_member_stmt(rng, 'Outer')
+            toks = toks[1:]                  # drop the base type name: the definition is the type
+        else:
+            toks, n = c01.gen_mixed_stmt(rng, typedef=td)
+            while toks[0] in ('constexpr', 'extern', 'inline', 'static', 'const', 'volatile'):
+                toks = toks[1:]
+            toks = toks[1:]
+            while toks and toks[0] in ('const', 'volatile', 'static'):
+                toks = toks[1:]
+        toks = toks + rng.choice([[], ['int', 'z', ';'], ['}']])
+        cases.append((toks, n, in_class, td, anon, key, mods, c, v))
+        if rng.random() < 0.25:
+            cases.append((c02.mutate(rng, toks) or [';'], n + 1, in_class, td, anon, key, mods, c, v))
+    lines, nms = [], []
+    for toks, n, ic, td, anon, key, mods, c, v in cases:
+        names = decl.Names()
+        fl = [int(c), int(v), int('constexpr' in mods), int('extern' in mods), int('inline' in mods), int('static' in mods), 0, 0, int('mutable' in mods)]
+        lines.append([112, n + 1, int(ic), int(td), int(anon), int(key in ('struct', 'union')), names.id('Outer'), names.id('~Outer'), names.id('Cn'),
+                      int(c), int(v)] + fl + decl.enc_tokens(toks, names))
+        nms.append(names)
+    outs = run_driver(lines)
+    for (toks, n, ic, td, anon, key, mods, c, v), o, names in zip(cases, outs, nms):
+        corr.cases += 1
+        fl6 = ('constexpr' in mods, 'extern' in mods, 'inline' in mods, 'static' in mods)
+
+        def opt(i):
+            if o[i] == 0:
+                return None, i + 1
+            cnt = o[i + 1]
+            vals = tuple(names.rev[o[i + 2 + 2 * q + 1]] if o[i + 2 + 2 * q + 1] else impl.TT[o[i + 2 + 2 * q]] for q in range(cnt))
+            return vals, i + 2 + 2 * cnt
+        if o[0] == 0:
+            rest, kind, k = o[1], o[2], o[3]
+            i = 4
+            items = []
+            if kind == 1:
+                items = [('field', None, ('B', 'Cn', False, False), None, None, (False, False, False, False))]
+            for _ in range(k):
+                if kind == 2:
+                    ek, nm, ln = o[i], names.rev.get(o[i + 1], '?'), o[i + 2]
+                    t, _j = decl.dec_type(o, i + 3, names)
+                    i = i + 3 + ln
+                    if ek == 0:
+                        val, i = opt(i)
+                        items.append(('td', nm, t) if td else ('var', nm, t, val, fl6))
+                    else:
+                        th, i = opt(i)
+                        ne, i = opt(i)
+                        items.append(('tdfn', nm, t) if td else ('fn', nm, t, th, ne, bool(o[i]), bool(o[i + 1]), fl6))
+                        i += 2
+                else:
+                    if o[i] == 0:
+                        nm = None if o[i + 1] == 0 else names.rev.get(o[i + 1] - 1, '?')
+                        ln = o[i + 2]
+                        t, _j = decl.dec_type(o, i + 3, names)
+                        i = i + 3 + ln
+                        if o[i] == 0:
+                            bits, i = None, i + 1
+                        else:
+                            bits, i = int(names.rev[o[i + 1]]), i + 2
+                        val, i = opt(i)
+                        items.append(('field', nm, t, bits, val, ('constexpr' in mods, 'mutable' in mods, 'static' in mods, 'inline' in mods)))
+                    else:
+                        nm, ctor, dtor, has_rt, ln = names.rev.get(o[i + 1], '?'), bool(o[i + 2]), bool(o[i + 3]), bool(o[i + 4]), o[i + 5]
+                        t, _j = decl.dec_type(o, i + 6, names)
+                        i = i + 6 + ln
+                        q5 = (bool(o[i]), bool(o[i + 1]), bool(o[i + 2]), bool(o[i + 3]), o[i + 4])
+                        i += 5
+                        th, i = opt(i)
+                        ne, i = opt(i)
+                        q = q5 + (th, ne, bool(o[i]), bool(o[i + 1]), bool(o[i + 2]), bool(o[i + 3]))
+                        i += 4
+                        items.append(('method', nm, ctor, dtor, t[1] if has_rt else None, t[2], t[3], q, fl6 + (False, False)))
+            m = ('ok', items, rest)
+        else:
+            m = ('err', o[1])
+        r = real_finish(toks, ic, td, anon, key, mods, c, v)
+        k_ = "finish:" + (m[0] if m[0] == 'ok' else 'err%d' % m[1]) + "/" + r[0]
+        corr.dist[k_] = corr.dist.get(k_, 0) + 1
+        msg = None
+        if r[0] != 'other' and not (m[0] == 'err' and m[1] == 4):
+            if m[0] == 'err' and m[1] == 9:
+                msg = "model ran out of fuel"
+            elif (m[0] == 'ok') != (r[0] == 'ok'):
+                msg = "model %s, implementation %s" % (m[:2], r[:2])
+            elif m[0] == 'ok' and m != r:
+                msg = "model %s, implementation %s" % (m, r)
+        if msg:
+            corr.disagreements.append(dict(case=dict(kind='corr-finish', tokens=toks, n=n, in_class=ic, typedef=td, anon=anon, key=key, mods=list(mods), const=c, volatile=v),
+                                           model=str(m)[:500], impl=str(r)[:500],
+                                           what="behind the closing brace of a %s%s definition (%s%s): `%s`: %s" % ('anonymous ' if anon else '', key, 'class' if ic else 'namespace',
+                                                                                                                  ', typedef' if td else '', ' '.join(toks), msg)))
+
+
 def correspond(ctx):
     corr = c05.correspond(ctx)
+    corr_finish(ctx, corr)
     corr_op_names(ctx, corr)
     corr_member_stmts(ctx, corr)
     corr_ctor_dtor(ctx, corr)
